@@ -492,7 +492,7 @@ const TEXTS: [&str; 16] = [
     "hello ", "\n", " ", "é∑ü ", "{ ", " }", "%", "a}b", "<b>", "</b>", "x", "-", "1,2", "Ünï", "{ z", "tail\n",
 ];
 
-const STRS: [&str; 10] = ["", " ", "a", "b", "Abc def", "1", "2.5", "true", "é∑", "x,y,z"];
+const STRS: [&str; 13] = ["", " ", "a", "b", "Abc def", "1", "2.5", "true", "é∑", "x,y,z", ",", ", ", "a "];
 
 pub struct Gen<'a> {
     pub rng: &'a mut Rng,
@@ -616,7 +616,7 @@ impl<'a> Gen<'a> {
             6 => f("default", vec![self.scalar_expr()]),
             7 => f("strip", vec![]),
             8 => f("escape", vec![]),
-            9 => f("join", vec![Expr::Str(",".into())]),
+            9 => f("join", vec![Expr::Str([",", ", ", " ", ""][self.rng.below(4)].into())]),
             10 => f("first", vec![]),
             11 => f("last", vec![]),
             12 => f("reverse", vec![]),
@@ -627,7 +627,7 @@ impl<'a> Gen<'a> {
             17 => f("abs", vec![]),
             18 => f("at_least", vec![Expr::Int(self.rng.range(-1, 3))]),
             19 => f("at_most", vec![Expr::Int(self.rng.range(-1, 3))]),
-            20 => f("split", vec![Expr::Str(",".into())]),
+            20 => f("split", vec![Expr::Str([",", ", ", " "][self.rng.below(3)].into())]),
             21 => f("slice", vec![Expr::Int(self.rng.range(0, 2)), Expr::Int(self.rng.range(1, 3))]),
             22 => f("truncate", vec![Expr::Int(self.rng.range(4, 8))]),
             23 => f("replace", vec![Expr::Str("a".into()), Expr::Str("é".into())]),
@@ -843,7 +843,11 @@ impl<'a> Gen<'a> {
             "break" => Node::Break,
             "continue" => Node::Continue,
             "include" => match self.partial_name() {
-                Some(name) => Node::Include { name, args: self.args() },
+                Some(name) => {
+                    // `include` has no `.liquid` fallback: name the stored partial in full, mostly
+                    let name = if name == Expr::Str("x".into()) && self.rng.chance(2, 3) { Expr::Str("x.liquid".into()) } else { name };
+                    Node::Include { name, args: self.args() }
+                }
                 None => Node::Text("i".into()),
             },
             "render" => match self.partial_name() {
@@ -857,7 +861,7 @@ impl<'a> Gen<'a> {
                     self.restricted -= 1;
                     let mut args = self.args();
                     if self.rng.chance(3, 4) {
-                        for n in IMMUTABLE.iter().chain(["arr", "obj", "s", "zero", "boom"].iter()) {
+                        for n in IMMUTABLE.iter().chain(["arr", "obj", "s", "zero"].iter()) {
                             if !args.iter().any(|(k, _)| k == n) {
                                 args.push((n.to_string(), Expr::Var(n.to_string())));
                             }
@@ -951,7 +955,7 @@ pub fn gen_data(rng: &mut Rng, partial_names: &[String], holes: bool) -> Dv {
     o.push(("arr".into(), Dv::Array((0..1 + rng.below(4)).map(|_| scalar_dv(rng)).collect())));
     o.push(("obj".into(), Dv::Object(vec![("k".into(), scalar_dv(rng))])));
     o.push(("s".into(), Dv::str(STRS[rng.below(STRS.len())])));
-    o.push(("zero".into(), if rng.chance(2, 3) { Dv::Int(0) } else { Dv::Int(1 + rng.below(3) as i64) }));
+    o.push(("zero".into(), if rng.chance(1, 2) { Dv::Int(0) } else { Dv::Int(1 + rng.below(3) as i64) }));
     if !holes || rng.chance(1, 2) {
         o.push(("boom".into(), Dv::str("ok")));
     }
@@ -1135,4 +1139,114 @@ pub fn inject_abort_in_capture(nodes: &mut Vec<Node>, rng: &mut Rng) -> bool {
         false
     }
     walk(nodes, rng)
+}
+
+fn cond_exprs_mut<'a>(c: &'a mut Cond, out: &mut Vec<&'a mut Expr>) {
+    match c {
+        Cond::Truthy(e) => out.push(e),
+        Cond::Cmp(a, _, b) => {
+            out.push(a);
+            out.push(b);
+        }
+        Cond::And(a, b) | Cond::Or(a, b) => {
+            cond_exprs_mut(a, out);
+            cond_exprs_mut(b, out);
+        }
+    }
+}
+
+fn exprs_mut<'a>(nodes: &'a mut [Node], out: &mut Vec<&'a mut Expr>) {
+    for n in nodes.iter_mut() {
+        match n {
+            Node::Output { expr, filters, .. } | Node::Assign { expr, filters, .. } => {
+                out.push(expr);
+                for f in filters.iter_mut() {
+                    out.extend(f.args.iter_mut());
+                }
+            }
+            Node::Cycle { values, .. } => out.extend(values.iter_mut()),
+            Node::Capture { body, .. } | Node::IfChanged(body) | Node::TableRow { body, .. } => exprs_mut(body, out),
+            Node::If { cond, then, elsifs, else_ } => {
+                cond_exprs_mut(cond, out);
+                exprs_mut(then, out);
+                for (c, b) in elsifs.iter_mut() {
+                    cond_exprs_mut(c, out);
+                    exprs_mut(b, out);
+                }
+                if let Some(e) = else_ {
+                    exprs_mut(e, out);
+                }
+            }
+            Node::Unless { cond, body, else_ } => {
+                cond_exprs_mut(cond, out);
+                exprs_mut(body, out);
+                if let Some(e) = else_ {
+                    exprs_mut(e, out);
+                }
+            }
+            Node::Case { expr, whens, else_ } => {
+                out.push(expr);
+                for (vals, b) in whens.iter_mut() {
+                    out.extend(vals.iter_mut());
+                    exprs_mut(b, out);
+                }
+                if let Some(e) = else_ {
+                    exprs_mut(e, out);
+                }
+            }
+            Node::For { body, else_, .. } => {
+                exprs_mut(body, out);
+                if let Some(e) = else_ {
+                    exprs_mut(e, out);
+                }
+            }
+            _ => {}
+        }
+    }
+}
+
+/// A near-duplicate of a template: the same structure with ONE literal changed minimally (a string
+/// gaining/losing a blank, another string of the pool, an integer +1) or one text node changed.
+/// Near-duplicates parsed on one parser defeat caches keyed too coarsely (length, prefix, source
+/// with blanks stripped ...).
+pub fn near_duplicate(nodes: &[Node], rng: &mut Rng) -> Vec<Node> {
+    let mut copy = nodes.to_vec();
+    let changed = {
+        let mut sites: Vec<&mut Expr> = vec![];
+        exprs_mut(&mut copy, &mut sites);
+        let lits: Vec<usize> = sites.iter().enumerate().filter(|(_, e)| matches!(e, Expr::Str(_) | Expr::Int(_))).map(|(i, _)| i).collect();
+        if lits.is_empty() {
+            false
+        } else {
+            let i = lits[rng.below(lits.len())];
+            let new = match &*sites[i] {
+                Expr::Str(x) => {
+                    let alt = match rng.below(4) {
+                        0 => format!("{x} "),
+                        1 => x.replace(' ', ""),
+                        2 => x.trim().to_string(),
+                        _ => STRS[rng.below(STRS.len())].to_string(),
+                    };
+                    if alt == *x {
+                        Expr::Str(format!(" {x}"))
+                    } else {
+                        Expr::Str(alt)
+                    }
+                }
+                Expr::Int(v) => Expr::Int(v + 1),
+                other => other.clone(),
+            };
+            *sites[i] = new;
+            true
+        }
+    };
+    if !changed {
+        // no literal to vary: change or add a text node instead
+        if let Some(Node::Text(t)) = copy.iter_mut().find(|n| matches!(n, Node::Text(_))) {
+            t.push(' ');
+        } else {
+            copy.push(Node::Text(" ".into()));
+        }
+    }
+    copy
 }
